@@ -88,12 +88,12 @@ P = {
  "C09": (True, "lockset guarded-by with helper summaries, channel-operation shape rules, lock-order graph, blocking reachability (go/ssa)",
          "Decides for every schedule: the registration maps/flags are only touched under the registration mutex (write lock for writes), the New announcement has a single locked call site dominated by !Valid with Valid=true stored first, "
          "hand-off sends are non-blocking with counted drops and a fixed worker pool, every blocking wait in the pipeline includes the stop signal, lock order is acyclic and nothing blocking runs under the registration lock except the reviewed Redis publish. "
-         "These are necessary conditions for race-freedom, announce-once, non-stalling overload and bounded shutdown; serializability and lost updates are not decided.",
+         "These are necessary conditions for race-freedom, announce-once, non-stalling overload and bounded shutdown; serializability and lost updates are not decided. Also decided: the registration lock is never acquired while it may already be held (directly or through a callee: a second RLock behind a waiting writer deadlocks), and no function hands out a guarded tracking map itself.",
          "4/C09"),
  "C10": (True, "value-flow of the message literals, constant pairing, interface-implementation enumeration (GetProto), cross-language contract check against rules extracted at token level from src/sessions.rs (go/ssa + text extraction)",
          "Decides for every registration: each announcement field is taken from the designated registration field / parameter; New is paired with the unused lifetime and Update with the active lifetime, the same variables the station expires by; every deployed transport's protocol is a TCP/UDP constant and PhantomProto is written only from it; "
          "the detector's acceptance rules (accepted protocol arms, phantom and client parse requirements, empty-client exception for IPv6 phantoms, v4/v6 mix rejection, conversion before operation dispatch) are extracted from src/sessions.rs on every run and every StationToDetector message the Go side builds — including the shutdown clear — is shown to satisfy them; Cleanup is deferred before signal handling. "
-         "The Rust side is read at token level (cannot be type-checked offline); Redis delivery and IP-literal well-formedness of every admitted address are not decided.",
+         "The Rust side is read at token level (cannot be type-checked offline); Redis delivery and IP-literal well-formedness of every admitted address are not decided. Also decided: the admission test that rejects an IPv4 phantom for an IPv6 registrant sees the final phantom (no later store), and the clear request is published under a context rooted in context.Background().",
          "4/C10"),
  "C11": (True, "nil-guard dominance for optional protobuf sub-messages (getter/field path normalisation, assign-if-nil and initialised-on-all-paths idioms, entry contracts), length-guard dominance on first-flight slices, reachability + reviewed table for the panic surface, loop-counter bound (go/ssa)",
          "Decides for every external input: no field of an optional protobuf sub-message reached from external bytes is addressed without a dominating non-nil test of that same access path (or a must-pass initialisation), and the payload contract of the registration constructor holds at its call sites; constant-bound slices of the first-flight buffer are dominated by a sufficient length test; "
@@ -108,7 +108,7 @@ P = {
  "C13": (True, "lockset analysis (may/must) + dominance on go/ssa",
          "Decides on all paths: no registrar mutex is re-acquired while possibly held (the RWMutex reader re-entrancy deadlock), "
          "one selector snapshot per request, every access to the selector under its mutex, reload parses outside the lock, stores only on success, all locks released. "
-         "A schedule-independent structural argument: if no path re-acquires, no interleaving with a reload can deadlock on these mutexes. Does not decide termination of Select itself.",
+         "A schedule-independent structural argument: if no path re-acquires, no interleaving with a reload can deadlock on these mutexes. Does not decide termination of Select itself. Snapshots are counted through helpers: a request that obtains the selector more than once (own loads or helper calls) must do so inside one critical section.",
          "4/C13"),
 }
 
